@@ -9,6 +9,9 @@ import PkVerif.Gen.C17
     blob <id> <extra> dir <entries>
     blob <id> <extra> set <members> <mergeSets>
     blob <id> <extra> other|raw <mentions>            -> ok
+    blob <id> <extra> odd <ctype> <field> <refs>      a blob of camliType <ctype> that carries the link
+                               field <field> of ANOTHER type with <refs>: no link (`other`; for <ctype> =
+                               jsonarray the blob is not a JSON object: `raw`)            -> ok
     del <id> <target>          a delete claim <id> (an `other` blob) of <target>      -> ok
     rm <id>                    the blob disappears from the storage                   -> ok
     now <t>                    the clock moves on to t (now ≤ t ≤ now+10)              -> ok
@@ -77,6 +80,8 @@ def blobArg : List String → Option Blob
   | ["set", ms, subs] => do
     let ms ← listArg ms; let subs ← listArg subs
     pure (.staticSet ms subs)
+  | ["odd", ctype, _, ms] =>
+    (listArg ms).map (if ctype == "jsonarray" then .raw else .other)
   | ["other", ms] => (listArg ms).map .other
   | ["raw", ms] => (listArg ms).map .raw
   | _ => none
